@@ -67,7 +67,10 @@ structure DTask where
   snapshot : List Sub                  -- ghost: the list copied when the task first ran
   startedAt : Nat                      -- ghost: event counter when it first ran
   trail : List (Sub × Option Nat)      -- ghost: snapshot entries handled so far: awaited with v / skipped
-  deriving Repr, Inhabited
+  spawnedAt : Nat                      -- ghost: event counter when the task was created
+  subsAtSpawn : Nat → Nat              -- ghost: per callback function, how many plain subscriptions to the
+                                       --   task's name had been made when it was created
+  deriving Inhabited
 
 inductive WPhase where
   | absent
@@ -83,6 +86,7 @@ structure WTask where
   timeout : Option Nat
   ph : WPhase
   t0 : Nat                             -- ghost: clock reading when it started to wait
+  had : Bool                           -- ghost: a value existed when the task started
   deriving Repr, Inhabited
 
 structure St where
@@ -94,6 +98,9 @@ structure St where
   nw : Nat
   log : List LogE                      -- awaited callbacks, oldest first
   removed : List (Nat × Nat)           -- ghost: (sid, event counter) of every removal from a live list
+  subscribed : List (Nat × Sub)        -- ghost: every subscription ever made, with its name, in order
+  nSub : Nat → Nat → Nat               -- ghost: per (name, function): plain `subscribe` calls so far
+  nUnsub : Nat → Nat → Nat             -- ghost: per (name, function): `unsubscribe(name, function)` calls so far
   nextSid : Nat
   clock : Nat                          -- ghost: number of events executed
   now : Nat                            -- virtual time (ticks)
@@ -102,9 +109,17 @@ def upd {α : Type} (f : Nat → α) (i : Nat) (v : α) : Nat → α := fun j =>
 
 def init : St :=
   { subs := fun _ => [], data := fun _ => none,
-    d := fun _ => ⟨0, 0, .absent, [], 0, []⟩, nd := 0,
-    w := fun _ => ⟨0, none, .absent, 0⟩, nw := 0,
-    log := [], removed := [], nextSid := 0, clock := 0, now := 0 }
+    d := fun _ => ⟨0, 0, .absent, [], 0, [], 0, fun _ => 0⟩, nd := 0,
+    w := fun _ => ⟨0, none, .absent, 0, false⟩, nw := 0,
+    log := [], removed := [], subscribed := [], nSub := fun _ _ => 0, nUnsub := fun _ _ => 0,
+    nextSid := 0, clock := 0, now := 0 }
+
+/-- count one more call for (name, function) -/
+def bump (f : Nat → Nat → Nat) (n cb : Nat) : Nat → Nat → Nat :=
+  fun n' cb' => if n' = n ∧ cb' = cb then f n' cb' + 1 else f n' cb'
+
+/-- number of plain (not once) entries of the function `cb` in a callback list -/
+def plainCount (l : List Sub) (cb : Nat) : Nat := (l.filter fun u => !u.once && u.cb == cb).length
 
 inductive Ev where
   | subscribe (n cb : Nat)
@@ -175,7 +190,7 @@ def stepW (s : St) (j : Nat) : St :=
   match (s.w j).ph with
   | .created =>
     match s.data (s.w j).name with
-    | some v => { s with w := upd s.w j { s.w j with ph := .returned v s.now, t0 := s.now } }
+    | some v => { s with w := upd s.w j { s.w j with ph := .returned v s.now, t0 := s.now, had := true } }
     | none =>
       match (s.w j).timeout with
       | some 0 => { s with w := upd s.w j { s.w j with ph := .timedOut s.now, t0 := s.now } }   -- wait_for(…, 0)
@@ -198,19 +213,23 @@ def findCb (l : List Sub) (cb : Nat) : Option Sub := l.find? fun u => !u.once &&
 
 def apply (sc : Nat → Script) (s : St) : Ev → St
   | .subscribe n cb =>
-    { s with subs := upd s.subs n (s.subs n ++ [⟨s.nextSid, cb, false⟩]), nextSid := s.nextSid + 1 }
+    { s with subs := upd s.subs n (s.subs n ++ [⟨s.nextSid, cb, false⟩]), nextSid := s.nextSid + 1,
+             subscribed := s.subscribed ++ [(n, ⟨s.nextSid, cb, false⟩)], nSub := bump s.nSub n cb }
   | .subscribeOnce n cb =>
-    { s with subs := upd s.subs n (s.subs n ++ [⟨s.nextSid, cb, true⟩]), nextSid := s.nextSid + 1 }
+    { s with subs := upd s.subs n (s.subs n ++ [⟨s.nextSid, cb, true⟩]), nextSid := s.nextSid + 1,
+             subscribed := s.subscribed ++ [(n, ⟨s.nextSid, cb, true⟩)] }
   | .unsubCb n cb =>
     match findCb (s.subs n) cb with
-    | some u => { s with subs := upd s.subs n (dropSid (s.subs n) u.sid), removed := s.removed ++ [(u.sid, s.clock)] }
-    | none => s
+    | some u => { s with subs := upd s.subs n (dropSid (s.subs n) u.sid), removed := s.removed ++ [(u.sid, s.clock)],
+                         nUnsub := bump s.nUnsub n cb }
+    | none => { s with nUnsub := bump s.nUnsub n cb }
   | .unsubOnce n sid =>
     if (s.subs n).any (fun u => u.once && u.sid == sid) then
       { s with subs := upd s.subs n (dropSid (s.subs n) sid), removed := s.removed ++ [(sid, s.clock)] }
     else s
-  | .spawnDispatch n v => { s with d := upd s.d s.nd ⟨n, v, .created, [], 0, []⟩, nd := s.nd + 1 }
-  | .spawnWait n to => { s with w := upd s.w s.nw ⟨n, to, .created, 0⟩, nw := s.nw + 1 }
+  | .spawnDispatch n v =>
+    { s with d := upd s.d s.nd ⟨n, v, .created, [], 0, [], s.clock, fun cb => s.nSub n cb⟩, nd := s.nd + 1 }
+  | .spawnWait n to => { s with w := upd s.w s.nw ⟨n, to, .created, 0, false⟩, nw := s.nw + 1 }
   | .stepD i => stepD sc s i
   | .stepW j => stepW s j
   | .advance t => advance s t
